@@ -61,31 +61,70 @@ func runBounded(repo, verif, prop, tier string) ([]BoundedResult, []string) {
 		if len(tests) == 0 {
 			continue
 		}
-		overlay := map[string]map[string]string{"Replace": {}}
-		pkgDir := filepath.Join(repo, boundedDirs[d])
-		for _, f := range files {
-			overlay["Replace"][filepath.Join(pkgDir, filepath.Base(f))] = f
-		}
-		tmp, _ := os.MkdirTemp("", "vcgo-bounded")
-		ovFile := filepath.Join(tmp, "overlay.json")
-		ob, _ := json.Marshal(overlay)
-		os.WriteFile(ovFile, ob, 0o644)
 		timeout := 240
 		if tier == "thorough" {
 			timeout = 1500
 		}
-		ctx, cancel := context.WithTimeout(context.Background(), time.Duration(timeout+30)*time.Second)
-		cmd := exec.CommandContext(ctx, "go", "test", "-overlay", ovFile, "-tags", "verif", "-vet=off", "-count=1", "-v",
-			fmt.Sprintf("-timeout=%ds", timeout), "-run", "^("+strings.Join(tests, "|")+")$", "./"+boundedDirs[d])
-		cmd.Dir = repo
-		cmd.Env = append(os.Environ(), "GOFLAGS=-mod=mod", "GOPROXY=off", "GOSUMDB=off", "GOTOOLCHAIN=local", "VERIF_TIER="+tier,
-			"VERIF_DIR="+verif, "VERIF_CONTRACTS="+strings.Join([]string{filepath.Join(repo, "contracts_verif.go"), filepath.Join(repo, "lexer", "contracts_verif.go")}, ":"))
 		var out bytes.Buffer
-		cmd.Stdout = &out
-		cmd.Stderr = &out
-		err := cmd.Run()
-		cancel()
-		os.RemoveAll(tmp)
+		var err error
+		// A stand-in that looks into the representation (fields of unexported structs) stops compiling when a change
+		// replaces the representation; the files the compiler names are then left out and the others still run.
+		for attempt := 0; attempt < 4; attempt++ {
+			overlay := map[string]map[string]string{"Replace": {}}
+			pkgDir := filepath.Join(repo, boundedDirs[d])
+			for _, f := range files {
+				overlay["Replace"][filepath.Join(pkgDir, filepath.Base(f))] = f
+			}
+			tmp, _ := os.MkdirTemp("", "vcgo-bounded")
+			ovFile := filepath.Join(tmp, "overlay.json")
+			ob, _ := json.Marshal(overlay)
+			os.WriteFile(ovFile, ob, 0o644)
+			ctx, cancel := context.WithTimeout(context.Background(), time.Duration(timeout+30)*time.Second)
+			cmd := exec.CommandContext(ctx, "go", "test", "-overlay", ovFile, "-tags", "verif", "-vet=off", "-count=1", "-v",
+				fmt.Sprintf("-timeout=%ds", timeout), "-run", "^("+strings.Join(tests, "|")+")$", "./"+boundedDirs[d])
+			cmd.Dir = repo
+			cmd.Env = append(os.Environ(), "GOFLAGS=-mod=mod", "GOPROXY=off", "GOSUMDB=off", "GOTOOLCHAIN=local", "VERIF_TIER="+tier,
+				"VERIF_DIR="+verif, "VERIF_CONTRACTS="+strings.Join([]string{filepath.Join(repo, "contracts_verif.go"), filepath.Join(repo, "lexer", "contracts_verif.go")}, ":"))
+			out.Reset()
+			cmd.Stdout = &out
+			cmd.Stderr = &out
+			err = cmd.Run()
+			cancel()
+			os.RemoveAll(tmp)
+			if err == nil || !strings.Contains(out.String(), "[build failed]") {
+				break
+			}
+			bad := map[string]bool{}
+			for _, m := range regexp.MustCompile(`([A-Za-z0-9_]+_test\.go):\d+:\d+:`).FindAllStringSubmatch(out.String(), -1) {
+				bad[m[1]] = true
+			}
+			var keep []string
+			for _, f := range files {
+				if !bad[filepath.Base(f)] {
+					keep = append(keep, f)
+				}
+			}
+			if len(keep) == len(files) || len(keep) == 0 {
+				break
+			}
+			var dropped []string
+			for b := range bad {
+				dropped = append(dropped, b)
+			}
+			sort.Strings(dropped)
+			problems = append(problems, fmt.Sprintf("bounded stand-ins in %s: %s no longer compile against this tree and were left out", d, strings.Join(dropped, ", ")))
+			files = keep
+			tests = nil
+			for _, f := range files {
+				b, _ := os.ReadFile(f)
+				for _, m := range pat.FindAllSubmatch(b, -1) {
+					tests = append(tests, string(m[1]))
+				}
+			}
+			if len(tests) == 0 {
+				break
+			}
+		}
 		got := map[string]bool{}
 		sc := bufio.NewScanner(bytes.NewReader(out.Bytes()))
 		sc.Buffer(make([]byte, 1<<20), 1<<26)
